@@ -40,6 +40,8 @@ def plan(tier, seed, batch):
     return [{"index": batch * 100000 + i, "seed": seed, "tier": tier} for i in range(n)]
 
 
+SWEEP_TASKS = 14
+
 ABSORB = [[("PUSH", "0"), ("MUL", None)], [("PUSH", "0"), ("AND", None)], [("DUP1", None), ("XOR", None)], [("DUP1", None), ("SUB", None)],
           [("PUSH", "1"), ("SWAP1", None), ("MOD", None)], [("PUSH", "0"), ("SWAP1", None), ("EXP", None)], [("DUP1", None), ("EQ", None)],
           [("PUSH", "0"), ("SWAP1", None), ("DIV", None)], [("POP", None), ("PUSH", "0")], [("DUP1", None), ("GT", None)],
@@ -97,6 +99,20 @@ def build(spec):
     i = spec["index"]
     rw = stream(spec["seed"], i, "workload")
     ro = stream(spec["seed"], i, "options")
+    if i < SWEEP_TASKS:
+        # deterministic sweep: every nested rule pattern in three shapes (inner term survives / result used twice / plain)
+        nested = [t for t in B.BAIT if any(a[0] == "op" for a in t[2])]
+        per = (len(nested) + SWEEP_TASKS - 1) // SWEEP_TASKS
+        blocks = []
+        for t in nested[i * per:(i + 1) * per]:
+            for shape in ("keepinner", "twice", "plain"):
+                g = B.Gen(rw, {"pseudo": False, "bait": 0})
+                g.h = 3
+                u = g.instantiate(t, 3, 1)
+                g.compile(("keepinner", u) if shape == "keepinner" else ("twice", "ADD", u) if shape == "twice" else u)
+                blocks.append(g.items)
+        return {"argv": ["-length", "-solver", "z3"] + (["-push0"] if i % 2 else []), "blocks": [AJ.items_to_text(b, 2) for b in blocks],
+                "peers": PEERS, "max_len": 12, "greedy": True}
     flags = ["-length"]
     split = ro.choice(["none", "none", "-storage", "-partition"])
     if split != "none":
